@@ -52,6 +52,10 @@ def check_call(ident, args, ufns=None, call=None):
     out = Outcome()
     fn, owner = real_function(ident)
     env = dict(args)
+    rel = ident.split('::')[0]
+    for gname in getattr(con, 'global_dicts', []):
+        env[gname] = getattr(real_module(rel), gname)
+    specrt.set_vals_pool(list(env.values()))
     for name, f in (ufns or {}).items():
         specrt.bind_ufn(name, f)
     try:
@@ -96,6 +100,7 @@ def check_call(ident, args, ufns=None, call=None):
         if not ok:
             out.failed.append('exsures: %s raised (%s)' % (type(e).__name__, str(e)[:200]))
         return out
+    specrt.set_vals_pool(list(env.values()) + [res])
     env2 = dict(env) if 'result' in args else dict(env, result=res)   # a parameter called `result` keeps its name
     for cl in con.ensures:
         try:
